@@ -34,6 +34,7 @@ def mapRef (f : Calc.Str → Calc.Str) : Calc.Expr → Calc.Expr
   | .pct e => .pct (mapRef f e)
   | .bin op l r => .bin op (mapRef f l) (mapRef f r)
   | .paren e => .paren (mapRef f e)
+  | .call n a => .call n (a.map (fun ks => ks.map f))
 
 /-- every reference key of the tree satisfies `P` -/
 def refsAll (P : Calc.Str → Prop) : Calc.Expr → Prop
@@ -42,6 +43,7 @@ def refsAll (P : Calc.Str → Prop) : Calc.Expr → Prop
   | .pct e => refsAll P e
   | .bin _ l r => refsAll P l ∧ refsAll P r
   | .paren e => refsAll P e
+  | .call _ a => ∀ ks ∈ a, ∀ k ∈ ks, P k
   | _ => True
 
 /-- what the formula rewriter does to a key (Spec level): parse, relocate, render -/
